@@ -112,7 +112,7 @@ class HTTPProtocol(BaseGopherProtocol):
         # Decision time....
         if re.match("(/|)URL:", entry.getselector()):
             # It's a plain URL.  Make it that.
-            url = re.match("(/|)URL:(.+)$", entry.getselector()).group(2)
+            url = re.match("(/|)URL:(.*)$", entry.getselector(), re.S).group(2)
         elif (not entry.gethost()) and (not entry.getport()):
             # It's a link to our own server.  Make it as such.  (relative)
             url = urllib.parse.quote(entry.getselector(), errors="surrogateescape")
